@@ -223,6 +223,17 @@ func registerHarnessIntrinsics() {
 		}
 		return Int(in.sideObj(p, "certpool").n), true
 	})
+	reg("vTimePasses", func(in *Interp, fr *frame, args []Value) (Value, bool) {
+		in.clockEpoch++
+		in.emit("time.passes")
+		return nil, true
+	})
+	reg("vIssuedSigners", func(in *Interp, fr *frame, args []Value) (Value, bool) {
+		return Int(in.issuedSigners), true
+	})
+	reg("vIssuedLeaves", func(in *Interp, fr *frame, args []Value) (Value, bool) {
+		return Int(in.issuedLeaves), true
+	})
 	reg("vTrackElems", func(in *Interp, fr *frame, args []Value) (Value, bool) {
 		// track the element cells of a slice's backing array (up to its capacity)
 		it := args[0].(Iface)
